@@ -8,7 +8,7 @@ for f in ['patch.diff', f'seeded_{ID}.rs', 'notes.md']:
     if os.path.exists(f'{src}/{f}'): shutil.copy(f'{src}/{f}', f'{dst}/{f}')
 prop=open(f'/tmp/seeded/{ID}.property.txt').read().split('\n')[0]
 meta={
- "breaks_property": ID,
+ "breaks_property": ID[:3],
  "property_title": prop,
  "needs_to_manifest": needs,
  "files": {"patch": "patch.diff", "demonstration": f"seeded_{ID}.rs (integration test for rust/altrios-core/tests/)", "author_notes": "notes.md"},
